@@ -12,6 +12,7 @@ ORDER = {"aws_memory_order_relaxed": 0, "aws_memory_order_acquire": 2, "aws_memo
 DECIDED = [
     "FREE-REGION: on every success path of acquire / acquire_up_to the vended range [base, base+n) lies inside the storage and inside the free region of the observed (head, tail) case - empty: starts at the storage start; tail>head: ends strictly before tail; tail<head: after head up to the end, or from the start ending strictly before tail - for all pointer values and sizes (NUM)",
     "HEAD-ADVANCE: the head published equals base+n of the buffer handed out; n equals the requested size (acquire) or lies between minimum and requested (acquire_up_to)",
+    "AVAILABLE: after head and tail have been read, a request is refused only when it does not fit the free region of the observed case; in particular an idle ring (head == tail) refuses only sizes larger than its whole capacity (NUM on every refusal path)",
     "SINGLE-WRITER: head is stored only by the acquire functions and init; tail only by release, init and the acquire functions' empty case (under head == tail)",
     "MEMORY-ORDER: tail is loaded with acquire (or stronger) by the acquirer and stored with release (or stronger); release publishes buffer+capacity of the buffer it then zeroes",
 ]
@@ -68,6 +69,7 @@ def analyse(ctx, replace=None, only=None):
     for f in fns.values():
         R.fn(f)
     n_paths = 0
+    n_refused = [0]
     for name in ("aws_ring_buffer_acquire", "aws_ring_buffer_acquire_up_to"):
         f = fns[name]
         num = Num(f, P, RingHooks())
@@ -85,6 +87,27 @@ def analyse(ctx, replace=None, only=None):
                     if v is not None and v.is_const():
                         R.check(not st.notes.get("atomic_stores"), "SINGLE-WRITER", "%s:failure-publishes-nothing" % name, "%s:%d" % (FILE, r["loc"][0]), "a failing acquire stores neither head nor tail",
                                 "a failing acquire has already stored %s" % [(s[0], repr(s[1])) for s in st.notes.get("atomic_stores", [])])
+                        # AVAILABLE: once head and tail have been read, a request is refused only when it does not fit
+                        loads = st.notes.get("atomic_loads", {})
+                        rb = st.env.get("v:ring_buf")
+                        if "head" in loads and "tail" in loads and rb is not None:
+                            H, T = Poly.atom(loads["head"][0]), Poly.atom(loads["tail"][0])
+                            A = num.field(st, "(%r)->allocation" % rb, RB, "allocation")
+                            E = num.field(st, "(%r)->allocation_end" % rb, RB, "allocation_end")
+                            need = st.env.get("v:requested_size") if name.endswith("acquire") else st.env.get("v:minimum_size")
+                            loc = "%s:%d in %s()" % (FILE, r["loc"][0], name)
+                            n_refused[0] += 1
+                            if need is None:
+                                R.fail("AVAILABLE", "%s:refusal" % name, loc, "the refused size is not tracked")
+                            elif entails(st, H - T) and entails(st, T - H):
+                                R.check(entails(st, E - A + 1 - need), "AVAILABLE", "%s:empty-ring-refuses-only-larger-than-capacity" % name, loc, "with nothing outstanding a request is refused only when it exceeds the whole ring",
+                                        "an idle ring refuses a request that fits (size %r, ring %r): not every request up to the capacity succeeds" % (need, E - A))
+                            elif entails(st, H - T + 1):
+                                R.check(entails(st, T - H - need), "AVAILABLE", "%s:tail-ahead-refuses-only-when-no-room" % name, loc, "refused only when size >= tail - head (one byte of slack)",
+                                        "refused although the gap before tail is large enough (size %r, gap %r)" % (need, T - H))
+                            elif entails(st, T - H + 1):
+                                R.check(entails(st, E - H + 1 - need) and entails(st, T - A - need), "AVAILABLE", "%s:head-ahead-refuses-only-when-no-room" % name, loc, "refused only when size > end - head and size >= tail - start",
+                                        "refused although the space after head or before tail is large enough (size %r)" % need)
                     continue
                 n_paths += 1
                 loc = "%s:%d in %s()" % (FILE, r["loc"][0], name)
@@ -137,6 +160,7 @@ def analyse(ctx, replace=None, only=None):
                 else:
                     R.fail("FREE-REGION", "%s:case-known" % name, loc, "a success path is reached without knowing the relative position of head and tail")
     R.require(n_paths >= 10, "only %d success paths analysed (confirmed: 4 + 6)" % n_paths)
+    R.require(n_refused[0] >= 4, "only %d refusal paths analysed" % n_refused[0])
 
     # SINGLE-WRITER / MEMORY-ORDER (syntactic, whole file)
     allowed = {"head": {"aws_ring_buffer_acquire", "aws_ring_buffer_acquire_up_to", "aws_ring_buffer_init"},
@@ -171,6 +195,7 @@ def analyse(ctx, replace=None, only=None):
 
 
 MUTANTS = [
+    {"name": "idle-ring-refuses-full-capacity", "file": FILE, "expect": "AVAILABLE", "old": "        if (requested_size > ring_space) {", "new": "        if (requested_size >= ring_space) {"},
     {"name": "tail-ahead-no-slack", "file": FILE, "expect": "FREE-REGION", "old": "        size_t space = tail_cpy - head_cpy - 1;\n", "new": "        size_t space = tail_cpy - head_cpy;\n"},
     {"name": "wrap-reaches-tail", "file": FILE, "expect": "FREE-REGION",
      "old": "        if ((size_t)(tail_cpy - ring_buf->allocation) > requested_size) {", "new": "        if ((size_t)(tail_cpy - ring_buf->allocation) >= requested_size) {"},
